@@ -165,9 +165,12 @@ impl StaticsContext {
     ) -> Option<Rc<InterfaceImpl>> {
         // TODO: cache this using hashmap
         let impl_list = self.interface_impls[iface].clone();
-        impl_list
-            .into_iter()
-            .find(|imp| ty.fits_impl_ty(&imp.typ.to_solved_type(self).unwrap()))
+        // an impl for a type that does not resolve (already reported) fits nothing
+        impl_list.into_iter().find(|imp| {
+            imp.typ
+                .to_solved_type(self)
+                .is_some_and(|impl_ty| ty.fits_impl_ty(&impl_ty))
+        })
     }
 
     pub(crate) fn get_free_function_decl(&self, name: &str) -> Rc<FuncDef> {
